@@ -36,7 +36,7 @@ S1, S2, N = T.sym('S1'), T.sym('S2'), T.sym('n')
 def arith_refs(s1, s2, n):
     fn = T.op('i2f', n)
     mean = T.op('div', s1, fn)
-    var = T.op('div', T.op('sub', s2, T.op('div', T.op('mul', s1, s1), fn)), T.op('sub', fn, F1))
+    var = T.op('div', T.op('sub', s2, T.op('mul', mean, s1)), T.op('sub', fn, F1))   # today's scaling: S2 - mean*S1 (see C01.refs)
     return mean, var, fn
 
 
@@ -294,7 +294,7 @@ def run_cfg(chk, facts, cfg):
                 chk.saw(facts, f, paths=len(paths))
                 check_sqrt_domain(chk, key, where, paths, 'Paired::ci_mean(%s)' % kname, cnt)
                 check_mean_interval(chk, PID, key, where, sm, im, cm, paths, kind, L, mean, se, nu, dom,
-                                    'Paired::ci_mean(%s) is the arithmetic-mean interval of the accumulated differences' % kname)
+                                    'Paired::ci_mean(%s) is the arithmetic-mean interval of the accumulated differences' % kname, stat_atoms=[(S2V, 'S2')])
             except (Unsupported, NotReal) as e:
                 chk.ob(key, 'E3+E4 formula', 'Paired::ci_mean', None, 'undecided: %s' % e, where)
     for name, ref in (('sample_mean', mean), ('sample_count', N)):
@@ -334,7 +334,7 @@ def run_cfg(chk, facts, cfg):
                     continue
                 sub = havoc_subst(sm, hav, S1, S2V, N)
                 check_mean_interval(chk, PID, key, where, sm, im, cm, rest, kind, L, mean, se, nu, dom,
-                                    'Paired::ci(%s) == Arithmetic::ci_mean of the differences' % kname, subst=sub)
+                                    'Paired::ci(%s) == Arithmetic::ci_mean of the differences' % kname, subst=sub, stat_atoms=[(S2V, 'S2')])
             except (Unsupported, NotReal) as e:
                 chk.ob(key, 'E3+E4 formula', 'Paired::ci', None, 'undecided: %s' % e, where)
 
